@@ -10,7 +10,7 @@ import (
 	"strings"
 )
 
-var loadPatterns = []string{"./internal/...", "./pkg/...", "./cmd/...", "github.com/gin-gonic/gin"}
+var loadPatterns = []string{"./internal/...", "./pkg/...", "./cmd/...", "github.com/gin-gonic/gin", "slices", "maps", "cmp"}
 
 func main() {
 	if len(os.Args) < 2 {
